@@ -7,8 +7,11 @@ from common import hexs
 
 TRANSLATORS = ['t_step', 't_interp', 't_lock']
 TRUSTED = ['tools/chaos_preload.c (LD_PRELOAD shim: random delays for the undriven lane, call trace with file sizes for the call-order lane)',
-           'translator t_lock.py (regexes on step.c / robsd-step.c: the order of open/flock/read/serialise/fopen/fwrite/fclose/unlock/close and of the sync points; '
-           'helper functions of step.c are expanded in place, error exits left out)',
+           'translator t_lock.py (step.c / robsd-step.c: the order of open/flock/read/serialise/fopen/fwrite/fclose/unlock/close and of the sync points; '
+           'helper functions of step.c are expanded in place, error exits left out; every lock/unlock/truncate/write/close call must stand at its expected brace depth '
+           'in exactly its expected statement, and no preprocessor line other than the ROBSD_VERIF points may occur in the three functions)',
+           'the meaning of each call on the shared state (Lock/LockInterp.exec_op: flock grants when free, read snapshots the file, fopen("we") empties it, fwrite/fclose '
+           'deliver the new content, LOCK_UN releases) is the assumption under which the generated call lists are proved to be the transitions of the model',
            'ASSUMED about libc (observed by the call-order lane only): fwrite writes the whole 4096-byte blocks of a large buffer itself and fclose the tail, '
            'so a rewrite passes through at most one intermediate content',
            'the ROBSD_VERIF sync-point hook in step.c (verif.h), this scheduler (FIFO + SIGSTOP/SIGCONT, /proc/<pid>/wchan to tell "blocked in flock")',
@@ -32,6 +35,10 @@ def gen_op(rng, i):
         if rng.random() < 0.1:
             kvs.append(rng.choice(['name=a,b', 'bogus=1', 'exit=x']))                           # rejected write
         return {'kind': 'w', 'id': idarg, 'kvs': kvs}
+    if rng.random() < 0.3:
+        # by name: what util.sh step_eval -n does most (a fast path without the lock for -R -n would pass a generator of -i reads only)
+        return {'kind': 'r', 'how': 'n', 'arg': rng.choice(['one', 'two', 'p0', 'p1', 'nosuch']),
+                'template': rng.choice(['${step}:${name}:${exit}:${duration}\n', '${exit}\n'])}
     return {'kind': 'r', 'how': 'i', 'arg': rng.choice(['1', '-1', '2', '-2']),
             'template': rng.choice(['${step}:${name}:${exit}:${duration}\n', '${name} ${log}\n'])}
 
@@ -62,7 +69,12 @@ def gen_case(rng):
     # then let everybody finish in some order
     tail = list(range(n)) * 9
     rng.shuffle(tail)
-    return {'init': rng.choice(INIT_FILES).hex(), 'ops': ops, 'sched': sched + tail}
+    init = rng.choice(INIT_FILES)
+    if rng.random() < 0.08:
+        # a step file of several stdio blocks: the rewrite reaches the file in two write(2) calls (fwrite the whole blocks,
+        # fclose the tail), so a process that got in between would see a block-aligned prefix
+        init = big_file(rng.choice([60, 100, 120]))
+    return {'init': init.hex(), 'ops': ops, 'sched': sched + tail}
 
 
 def op_toks(o):
@@ -274,6 +286,16 @@ def evaluate(ctx, cases, res):
         finally:
             shutil.rmtree(work, ignore_errors=True)
         n = len(case['ops'])
+        # every process passes step.after_open before anything else: a process without a single event means that the
+        # sync points are not there (VERIF_POINT expanded to nothing, -DROBSD_VERIF or ROBSD_VERIF_SYNC plumbing broken).
+        # Without events nothing is compared below (the zip would be empty): that is a broken tie, not a pass.
+        silent = [i for i in range(n) if not any(e[0] == i for e in ob['events'])]
+        if silent:
+            if not any(e.startswith('driven lane: process(es)') for e in res.tie_errors):
+                res.tie_errors.append('driven lane: process(es) %s of %d reported no sync point at all (events: %d) - the ROBSD_VERIF hook of step.c '
+                                      'is not active, nothing was compared (first such case; see input_distribution for the count)' % (silent, n, len(ob['events'])))
+            res.count('driven case without events')
+            continue
         optoks = [str(n)]
         for o in case['ops']:
             optoks += op_toks(o)
@@ -293,6 +315,8 @@ def evaluate(ctx, cases, res):
         res.count('procs=%d' % n)
         res.count('events=%d' % (len(evs) // 5 * 5))
         bad = None
+        if len(trs) != len(ob['events']):
+            bad = 'the model answered %d events for %d observed ones' % (len(trs), len(ob['events']))
         for k, ((idx, name, fhex), t) in enumerate(zip(ob['events'], trs)):
             if t[0] != '1':
                 bad = 'event %d (process %d reached %s) is not enabled in the model' % (k, idx, name)
@@ -444,21 +468,59 @@ def callorder(ctx, impl, drv, res, rounds):
 
 
 def load_corpus():
-    return [json.load(open(p)) for p in sorted(glob.glob(os.path.join(common.VERIF, 'corpus', 'C02', '*.json')))]
+    """Minimised cases that run first.  corpus/C02 holds the schedules of the two seeded changes (seeded/C02: shared lock then
+    upgrade; seeded/C02-2: unlock before the flush).  A missing or empty directory is an error, not an empty list."""
+    d = os.path.join(common.VERIF, 'corpus', 'C02')
+    paths = sorted(glob.glob(os.path.join(d, '*.json')))
+    if not paths:
+        raise common.BuildFailure('corpus/C02 is missing or empty (%s): the replays of the seeded schedules must run first' % d)
+    out = []
+    for p in paths:
+        c = json.load(open(p))
+        c['corpus'] = os.path.basename(p)
+        out.append(c)
+    return out
+
+
+def run_corpus(ctx, res):
+    """driven corpus cases go through the same evaluation as generated ones; undriven ones (a window without a sync
+    point) are executed under the delay shim with the recorded number of delay seeds"""
+    corpus = load_corpus()
+    driven = [c for c in corpus if not c.get('undriven')]
+    evaluate(ctx, driven, res)
+    und = [c for c in corpus if c.get('undriven')]
+    if und:
+        impl, drv, so, base = ctx.build_impl(), ctx.build_driver('lk'), build_chaos(ctx), ctx.mkscratch('c02c')
+        for c in und:
+            for k in range(int(c.get('chaos_rounds', 40))):
+                seed = int(c.get('chaos_seed', 0)) + k
+                ok, final, reps = undriven_one(impl, drv, so, base, c, seed)
+                res.evaluations += 1
+                res.count('corpus undriven ' + c['corpus'])
+                if not ok:
+                    res.oracle_failures.append({'case': dict(c, chaos_seed=seed), 'signature': 'not-serialisable',
+                                                'what': 'corpus case %s, undriven under the delay shim: final file / reports equal no serial order' % c['corpus'],
+                                                'final': final.decode('latin1'), 'reports': reps})
+                    break
+    res.count('corpus cases', len(corpus))
+    return len(corpus)
 
 
 def run(ctx, n=None):
     res = common.Result()
-    res.rule = ('2-4 real robsd-step -W/-R processes (new ids, same ids, partial updates, rejected writes, reads by position) on one file, '
+    res.rule = ('the corpus first (the schedules of the two seeded changes; the window without a sync point undriven under the delay shim); then 2-4 real robsd-step -W/-R processes (new ids, same ids, partial updates, rejected writes, reads by position and by name) on one file, '
                 'driven through the 7 sync points of step.c along adversarial and random schedules; the observed event trace is replayed on the model '
                 '(file content compared after every event, reports at the end) and the final file/reports checked against all serial orders; single processes under a '
                 'tracing shim (order of the calls on the step file and its lock; file size after the truncation, at the entry of fclose, after it and at the unlock, for files '
                 'below, across and exactly on stdio block boundaries); '
                 'non-trivial = at least one writer and at least two processes produced events; distinct by ops+event trace')
     n = n or ctx.budget(250, 4000)
-    cases = load_corpus() + [gen_case(ctx.rng) for _ in range(n)]
+    run_corpus(ctx, res)                      # corpus first
+    cases = [gen_case(ctx.rng) for _ in range(n)]
     res.samples = cases[:2]
     evaluate(ctx, cases, res)
+    if not any(k.startswith('events=') for k in res.distribution):
+        res.tie_errors.append('driven lane: no case produced an event trace')
     res.traces_validated = res.evaluations
     undriven(ctx, ctx.build_impl(), ctx.build_driver('lk'), res, ctx.budget(150, 3000) if n >= 250 else max(20, n // 2))
     callorder(ctx, ctx.build_impl(), ctx.build_driver('lk'), res, ctx.budget(120, 1500) if n >= 250 else 30)
